@@ -56,6 +56,8 @@ def random_layout(r, big=False):
         if kind == "leaf":
             width = r.choice([8, 16, 32, 32, 64] + ([128, 256, 512] if big else []))
             regs.append(mk_leaf(f"REG{t}", width, tile_fields(r, f"REG{t}", width)))
+            # a plain register with reversed byte order (with or without bit-fields): the JSON specification cannot declare it, the Register API can
+            regs[-1]["reverse"] = width > 8 and r.random() < 0.3
         else:
             n_sub = r.choice([1, 2, 2, 4] + ([8, 16] if big else []))
             sw = r.choice([8, 16, 32])
@@ -135,6 +137,9 @@ class Real:
     def fresh(self):
         regs = self.Registers(family="VerifDevice", feature="verif")
         regs._load_spec(self.path, grouped_regs=self.groups)
+        for reg in self.layout["regs"]:
+            if reg["kind"] == "leaf" and reg["reverse"]:
+                regs.find_reg(reg["name"], include_group_regs=True).reverse = True      # = Register(..., reverse=True); set before any value is written
         return regs
 
     def reg(self, r):
@@ -455,19 +460,24 @@ def run(tier):
         v.nontrivial(json.dumps([t["lay"], [(e.get("a"), e.get("r"), e.get("f"), e.get("v"), e.get("q")) for e in t["ev"]]]))
     v.sample(traces[len(traces) // 2])
 
-    # ---- canary: corrupt one logged bit of a good trace, it must be rejected
-    good = json.loads(json.dumps(traces[len(traces) // 3]))
-    bad = json.loads(json.dumps(good))
-    good["id"], bad["id"] = "canary-good", "canary-bad"
-    last = bad["ev"][-1]["post"]["bits"][0]
-    bad["ev"][-1]["post"]["bits"][0] = [b for b in last if b != 7] if 7 in last else last + [7]
-    rej, _ = tlc.tv("C11", "RegFileTrace", [good, bad], env={"LAYOUT_FILE": tiny_file, "MENU": "full"})
-    if set(rej) != {"canary-bad"}:
-        raise Machinery(f"canary failed: rejected {sorted(rej)} (expected only canary-bad)")
-    v.extra["canary"] = "uncorrupted trace accepted, trace with one flipped logged bit rejected"
-
-    validate(v, layouts1, tiny_file, traces)
+    rej1 = validate(v, layouts1, tiny_file, traces)
     say(f"[C11] TV1 done {v.timer.s()}s")
+
+    # ---- canary: corrupt one logged bit of a trace the spec ACCEPTED, it must be rejected (a trace of the real code that the spec rejects is a
+    # violation of the run above, never a machinery failure)
+    accepted = [t for t in traces if t["id"] not in rej1]
+    if accepted:
+        good = json.loads(json.dumps(accepted[len(accepted) // 3]))
+        bad = json.loads(json.dumps(good))
+        good["id"], bad["id"] = "canary-good", "canary-bad"
+        last = bad["ev"][-1]["post"]["bits"][0]
+        bad["ev"][-1]["post"]["bits"][0] = [b for b in last if b != 7] if 7 in last else last + [7]
+        rej, _ = tlc.tv("C11", "RegFileTrace", [good, bad], env={"LAYOUT_FILE": tiny_file, "MENU": "full"})
+        if set(rej) != {"canary-bad"}:
+            raise Machinery(f"canary failed: rejected {sorted(rej)} (expected only canary-bad)")
+        v.extra["canary"] = "accepted trace accepted again, the same trace with one flipped logged bit rejected"
+    else:
+        v.extra["canary"] = "skipped: the spec rejected every trace of the real code (all reported as violations)"
 
     # ---- GEN 2: simulated long behaviours on generated layouts
     n_lay = 6 if tier == "quick" else 40
